@@ -225,6 +225,60 @@ func runWLHist(em *Emitter, hid int, h Hist, seed int64) (hung bool) {
 		switch st.Op {
 		case "setlimits":
 			curMT = st.Ival
+		case "nest":
+			// the recipe is generated from INSIDE a chain of st.Idx other Generate calls (each level's separator function calls the level
+			// below): the innermost call has the same fields as a call made alone, so it has the same right to a password
+			depth := st.Idx
+			inner := *objs[st.Obj]
+			var innerRes, wrapRes GenRes
+			got, wrapFailed := false, false
+			below := &inner
+			for d := 1; d <= depth; d++ {
+				b, dd := below, d
+				lv := *objs[st.Obj]
+				lv.Length = 1
+				lv.SeparatorFunc = func() (string, spg.FloatE) {
+					p, err := b.Generate()
+					if dd == 1 && !got {
+						innerRes, got = ResOf(p, err, nil), true
+					}
+					if dd > 1 && (err != nil || p == nil) && !wrapFailed {
+						// a wrapping level (one word, a separator function that returns ""): it, too, is fine when called alone
+						wrapRes, wrapFailed = ResOf(p, err, nil), true
+					}
+					return "", 0
+				}
+				below = &lv
+			}
+			func() {
+				defer func() { recover() }()
+				p, err := below.Generate()
+				if (err != nil || p == nil) && !wrapFailed {
+					wrapRes, wrapFailed = ResOf(p, err, nil), true
+				}
+			}()
+			if wrapFailed {
+				spec := specs[st.Obj]
+				spec.Len, spec.Sep, spec.SepVals, spec.SepRecipe = 1, "customlist", [][]int{{}}, nil
+				sc := Scenario{Kind: "wl", WL: &spec, MaxTrials: curMT, FailRateOne: h.FailRateOne, Mode: "paths", Paths: 0,
+					Tag: fmt.Sprintf("%s#%d.%d-wrapping-level-of-%d", h.Tag, hid, si, depth)}
+				if cp, _, err := spec.Build(wl); err == nil {
+					evs := wlCellEvents(hid*1000+si, sc, seed+int64(si), &cp, wl)
+					em.Emit(evs[0])
+					em.Emit(LeafEv{Op: "wleaf", D: [][2]int{}, Det: -1, Res: wrapRes, PathW: []int{}, Reads: 1, Trunc: 1, PathProd: []int{}})
+					em.Emit(map[string]interface{}{"op": "wcellend", "id": hid*1000 + si})
+				}
+			}
+			if got {
+				spec := specs[st.Obj]
+				sc := Scenario{Kind: "wl", WL: &spec, MaxTrials: curMT, FailRateOne: h.FailRateOne, Mode: "paths", Paths: 0,
+					Tag: fmt.Sprintf("%s#%d.%d-nested-%d-deep", h.Tag, hid, si, depth)}
+				cp := *objs[st.Obj]
+				evs := wlCellEvents(hid*1000+si, sc, seed+int64(si), &cp, wl)
+				em.Emit(evs[0])
+				em.Emit(LeafEv{Op: "wleaf", D: [][2]int{}, Det: -1, Res: innerRes, PathW: []int{}, Reads: 1, Trunc: 1, PathProd: []int{}})
+				em.Emit(map[string]interface{}{"op": "wcellend", "id": hid*1000 + si})
+			}
 		case "fault":
 			failingCall(func() { objs[st.Obj].Generate() }, seed+int64(si), st.Idx, st.Ival)
 			processFaulted = true
